@@ -144,6 +144,10 @@ func P(off, del int, ins []byte) Patch { return Patch{off, del, hex.EncodeToStri
 // Byte strings of 16..64 bytes recur in many cases (digests, keys): they are emitted as tokens and, once all
 // cases are known, either named in the shard header (3 or more uses) or inlined.  Parsing a numeral costs Coq
 // about 0.1 ms per byte, which dominated the evaluation time.
+// internMin: a byte string is named in the shard headers only if it is used at least this often
+// (grows with the run so that thorough runs do not put thousands of definitions into every header).
+var internMin = 3
+
 var (
 	internMu    sync.Mutex
 	internCount = map[string]int{}
@@ -170,7 +174,7 @@ func hxBytes(b []byte) string {
 func resolveInterned(s string, names map[string]string, defs *[]string) string {
 	return internRe.ReplaceAllStringFunc(s, func(t string) string {
 		h := t[2 : len(t)-2]
-		if internCount[h] < 3 {
+		if internCount[h] < internMin {
 			return hxLit(h)
 		}
 		n, ok := names[h]
@@ -447,8 +451,9 @@ func parseTCBInfo(raw []byte) (f tiFacts) {
 		}
 		lvls = append(lvls, fmt.Sprintf("mkTL %s %d %s %d", zlist(sg), l.TCB.PCESVN, zlist(td), int(l.Status)))
 	}
-	f.coq = fmt.Sprintf("(Some (mkTI %s (%d)%%Z %s %s %s %d [%s] [%s]))", coqBytes([]byte(ti.ID)), ti.Version, is, ns,
-		coqBytes([]byte(ti.FMSPC)), ti.TCBEvaluationDataNumber, strings.Join(mods, "; "), strings.Join(lvls, "; "))
+	f.coq = fmt.Sprintf("(Some (mkTI %s (%d)%%Z %s %s %s %d [%s] [%s] %s %s %s))", coqBytes([]byte(ti.ID)), ti.Version, is, ns,
+		coqBytes([]byte(ti.FMSPC)), ti.TCBEvaluationDataNumber, strings.Join(mods, "; "), strings.Join(lvls, "; "),
+		coqBytes([]byte(ti.TDXModule.MRSIGNER)), coqBytes([]byte(ti.TDXModule.Attributes)), coqBytes([]byte(ti.TDXModule.AttributesMask)))
 	return
 }
 
@@ -904,6 +909,19 @@ func evaluate(c CaseD) (res result) {
 			if tif.next != nil && !ts.Before(*tif.next) || qif.next != nil && !ts.Before(*qif.next) {
 				res.obs = append(res.obs, "accepted-at-or-after-nextUpdate")
 			}
+			if r.tee == 0x81 {
+				// Intel's TDX verification compares SEAMATTRIBUTES with tdxModule.attributes under the mask; the code does not
+				a, e1 := hex.DecodeString(tif.raw.TDXModule.Attributes)
+				mk, e2 := hex.DecodeString(tif.raw.TDXModule.AttributesMask)
+				if e1 == nil && e2 == nil && len(a) == 8 && len(mk) == 8 {
+					for i := 0; i < 8; i++ {
+						if r.body[112+i]&mk[i] != a[i] {
+							res.obs = append(res.obs, "accepted-tdx-quote-whose-seam-attributes-differ-from-the-tcb-info-tdxModule")
+							break
+						}
+					}
+				}
+			}
 			if tif.eval < pol.MinEval || qif.eval < pol.MinEval {
 				v("accepted with tcbEvaluationDataNumber below the policy minimum")
 			}
@@ -1131,6 +1149,8 @@ func withSlack(raw []byte, n int, fill byte) []byte {
 	return out
 }
 
+var certPhase int
+
 func genBitflips(v vector, rng *prng.R, all bool, budget int) []CaseD {
 	raw := bases[v.quote]
 	sp := spans(raw)
@@ -1143,7 +1163,13 @@ func genBitflips(v vector, rng *prng.R, all bool, budget int) []CaseD {
 		cs = append(cs, c)
 	}
 	if all {
+		// every bit of every region; in the certification data (PEM text, > 70 % of the quote, where a flipped bit ends
+		// in a PEM / X.509 parse error or a failed path validation) every third bit, the phase chosen by the seed, so
+		// that seeds s, s+1, s+2 together cover all of it
 		for b := 0; b < len(raw)*8; b++ {
+			if regionOf(sp, b/8) == "certdata" && (b+certPhase)%3 != 0 {
+				continue
+			}
 			add(b)
 		}
 		return cs
@@ -1624,6 +1650,7 @@ func main() {
 	}
 	vs := loadVectors(repo)
 	rng := prng.New(*seed)
+	certPhase = int(*seed % 3)
 	synthInit()
 	registerParsed()
 
@@ -1641,7 +1668,7 @@ func main() {
 	}
 
 	if *mode == "node" || *replay != "" && isNodeReplay(*replay) {
-		nodeMain(*seed, *out, *replay, *nodeN)
+		nodeMain(vs, *seed, *out, *replay, *nodeN)
 		return
 	}
 	var cases []CaseD
@@ -1720,7 +1747,10 @@ func main() {
 	}
 
 	// interleave so that every shard gets the same mix of cheap and expensive cases
-	const nShards = 12
+	// shards of at most shardCases cases (each shard is one coqc process: bounded time and memory), at least 12
+	const shardCases = 400
+	nShards := max(12, (len(cases)+shardCases-1)/shardCases)
+	internMin = max(3, len(cases)/400)
 	order := make([]int, 0, len(cases))
 	for s := 0; s < nShards; s++ {
 		for i := s; i < len(cases); i += nShards {
